@@ -103,7 +103,13 @@ class Drillhole(Points):
                 value = value.tolist()
 
             if isinstance(value, str):
-                value = [float(n) for n in re.findall(r"-?\d+\.\d+", value)]
+                value = [
+                    float(n)
+                    for n in re.findall(
+                        r"[-+]?(?:\d+\.?\d*|\.\d+)(?:[eE][-+]?\d+)?|[-+]?(?:nan|inf)",
+                        value,
+                    )
+                ]
 
             if len(value) != 3:
                 raise ValueError("Origin must be a list or numpy array of len (3,).")
